@@ -83,7 +83,7 @@ func (mt *MerkleTree) Open(i int) (MerkleProof, error) {
 		posBound  = 1 << mt.Depth()
 	)
 
-	if i >= posBound {
+	if i < 0 || i >= posBound {
 		return nil, errors.New("error: index out of range")
 	}
 
@@ -121,6 +121,11 @@ func (proof MerkleProof) Verify(i int, leaf, root Hash) error {
 
 		curNode = CompressPoseidon2(a, b)
 		parentPos = parentPos >> 1
+	}
+
+	// the index must address a leaf of a tree of depth len(proof): no bits may be left over
+	if i < 0 || parentPos != 0 {
+		return errors.New("error: index out of range")
 	}
 
 	if curNode != root {
